@@ -12,7 +12,7 @@
 static nsync_semaphore sem;
 #define POSTS 0
 #define TAKES 1
-static int n_calls, kinds[8];   /* 0 plain P, 1 timed with a finite deadline, 2 timed with nsync_time_no_deadline */
+static int n_calls, kinds[8], poster_tid[2], n_posters;   /* 0 plain P, 1 timed with a finite deadline, 2 timed with nsync_time_no_deadline */
 
 static int64_t ts_ns (nsync_time t) { return (int64_t) t.tv_sec * 1000000000LL + t.tv_nsec; }
 
@@ -41,6 +41,26 @@ static void owner (void *a) {
 		}
 		if (vrt_sh_get (TAKES) > vrt_sh_get (POSTS)) vrt_fail ("C12", "P succeeded %ld times with only %ld posts", vrt_sh_get (TAKES), vrt_sh_get (POSTS));
 	}
+	/* final accounting (counting semaphore): once every poster has finished, the posts not taken by a successful P must still be
+	   on the semaphore -- drain it with timed P calls whose deadline has passed (each returns 0 while a post is left); a call that
+	   reported ETIMEDOUT must not have consumed one */
+	if (vrt_opt ("DRAIN", 1)) {
+		for (k = 0; k < n_posters; k++) { while (!vrt_is_finished (poster_tid[k])) vrt_yield (); }
+		for (;;) {
+			nsync_time dl = vrt_abs (-1000);
+			int r;
+			vrt_note ("call tp %lld %lld", (long long) dl.tv_sec, (long long) dl.tv_nsec);
+			r = nsync_mu_semaphore_p_with_deadline (&sem, dl);
+			vrt_note ("ret %d", r);
+			if (r != 0) break;
+			vrt_sh_add (TAKES, 1);
+			vrt_count ("drain_ok");
+			if (vrt_sh_get (TAKES) > vrt_sh_get (POSTS)) vrt_fail ("C12", "P succeeded %ld times with only %ld posts", vrt_sh_get (TAKES), vrt_sh_get (POSTS));
+		}
+		if (vrt_sh_get (TAKES) != vrt_sh_get (POSTS))
+			vrt_fail ("C12", "%ld posts were made but only %ld could ever be taken: a post was lost (consumed by a P that did not report success)",
+				  vrt_sh_get (POSTS), vrt_sh_get (TAKES));
+	}
 }
 static void poster (void *a) {
 	int k, n = (int) (long) a;
@@ -62,8 +82,9 @@ int main (void) {
 	}
 	vrt_thread ("owner", owner, NULL);
 	/* posters together post at least as often as the owner makes calls that can only end by a post, so none may stay asleep */
-	vrt_thread ("post1", poster, (void *) (long) (need > 0 ? need : 1));
-	if (np > 1) vrt_thread ("post2", poster, (void *) (long) (1 + vrt_rand (2)));
+	poster_tid[0] = vrt_thread ("post1", poster, (void *) (long) (need > 0 ? need : 1));
+	n_posters = 1;
+	if (np > 1) { poster_tid[1] = vrt_thread ("post2", poster, (void *) (long) (1 + vrt_rand (2))); n_posters = 2; }
 	vrt_run ();
 	printf ("VRT-END ok\n");
 	return 0;
